@@ -1734,15 +1734,12 @@ func serializeHop(w io.Writer, h *route.Hop) error {
 		return err
 	}
 
-	// For legacy payloads, we don't need to write any TLV records, so
-	// we'll write a zero indicating the our serialized TLV map has no
-	// records.
-	if h.LegacyPayload {
-		return WriteElements(w, uint32(0))
-	}
-
 	// Gather all non-primitive TLV records so that they can be serialized
-	// as a single blob.
+	// as a single blob. A legacy payload normally has none, in which case
+	// a zero is written below, indicating that our serialized TLV map has
+	// no records. If it does carry some, they are kept: the attempt was
+	// validated against them (see verifyAttempt), so the stored attempt
+	// must answer the next validation in the same way.
 	//
 	// TODO(conner): add migration to unify all fields in a single TLV
 	// blobs. The split approach will cause headaches down the road as more
